@@ -41,10 +41,10 @@ Definition is_compare_head (s : text) : bool := match lookup s c_ops_class with 
 Fixpoint good (t : hy) : bool :=
   match t with
   | HSym _ | HKw _ | HInt _ | HStr _ => true
-  | HList l | HTuple l | HSet l => forallb good l && negb (existsb bare_um l)
-  | HDict l => forallb good l && negb (existsb bare_um l) && dict_ok (dict_shape l)
+  | HList l | HTuple l | HSet l => forallb good l
+  | HDict l => forallb good l && dict_ok (dict_shape l)
   | HExpr l =>
-      forallb good l && negb (existsb bare_um l)
+      forallb good l
       && match l with
          | HSym s :: args =>
              if text_eqb s s_chainc then 3 <=? length args else true
@@ -96,28 +96,27 @@ Proof. destruct r; auto. intros H. exact (H e eq_refl). Qed.
 
 (* _compile_collect, strong form: no internal error, all collected expressions valid *)
 Lemma collect_V comp wk dd : forall l,
-  Forall (elem_ok V comp) l -> existsb bare_um l = false -> VC (collect_with comp wk dd l).
+  Forall (elem_ok V comp) l -> VC (collect_with comp wk dd l).
 Proof.
   induction l as [l IHl] using (well_founded_induction (Wf_nat.well_founded_ltof _ (@length hy))).
-  intros HF HB. destruct l as [|x r]; [cbn; split; constructor|].
-  inversion HF as [|? ? [Hx Hin] HFr]; subst. cbn [existsb] in HB. apply orb_false_iff in HB. destruct HB as [HBx HBr].
-  assert (IHr : VC (collect_with comp wk dd r)) by (apply IHl; [unfold ltof; cbn; lia | assumption | assumption]).
+  intros HF. destruct l as [|x r]; [cbn; split; constructor|].
+  inversion HF as [|? ? [Hx Hin] HFr]; subst.
+  assert (IHr : VC (collect_with comp wk dd r)) by (apply IHl; [unfold ltof; cbn; lia | assumption]).
   cbn [Compile.collect_with]. fold (collect_with comp wk dd).
   destruct (is_unpack s_unpack_mapping x) eqn:U.
   - (* unpack-mapping *)
-    destruct x as [| | | |lx| | | |]; try discriminate. destruct lx as [|h [|v rest]].
-    + discriminate.
-    + (* bare: excluded *) cbn in U. destruct h; try discriminate. cbn in HBx. rewrite U in HBx. discriminate.
-    + specialize (Hin h v rest eq_refl). destruct (comp v) eqn:Cv; cbn in Hin.
-      * destruct dd.
-        { destruct (collect_with comp wk true r) as [es ks|bad]; [|exact IHr]. destruct IHr as [I1 I2].
-          split; [constructor; [exact I | constructor; [exact Hin | assumption]] | assumption]. }
-        destruct wk; [|split; [exact I | discriminate]].
-        destruct (collect_with comp true false r) as [es ks|bad]; [|exact IHr]. destruct IHr as [I1 I2].
-        split; try assumption. constructor; [exact Hin | assumption].
-      * split; [exact I | discriminate].
-      * destruct Hin.
-      * split; [exact I | discriminate].
+    destruct x as [| | | |lx| | | |]; try discriminate.
+    destruct lx as [|h [|v [|w rest]]]; try (split; [exact I | discriminate]).
+    specialize (Hin h v [] eq_refl). destruct (comp v) eqn:Cv; cbn in Hin.
+    + destruct dd.
+      { destruct (collect_with comp wk true r) as [es ks|bad]; [|exact IHr]. destruct IHr as [I1 I2].
+        split; [constructor; [exact I | constructor; [exact Hin | assumption]] | assumption]. }
+      destruct wk; [|split; [exact I | discriminate]].
+      destruct (collect_with comp true false r) as [es ks|bad]; [|exact IHr]. destruct IHr as [I1 I2].
+      split; try assumption. constructor; [exact Hin | assumption].
+    + split; [exact I | discriminate].
+    + destruct Hin.
+    + split; [exact I | discriminate].
   - destruct x as [s|k|z|s|lx|lx|lx|lx|lx], wk; cbv beta iota;
       try (destruct (comp _) eqn:Cx; cbn in Hx;
            [ destruct (collect_with comp _ dd r) as [es ks|bad]; [destruct IHr as [I1 I2]; split; [constructor; [exact Hx | assumption] | assumption] | exact IHr]
@@ -126,8 +125,8 @@ Proof.
     destruct r as [|v r'].
     + split; [exact I | discriminate].
     + destruct k as [|c k']; [split; [exact I | discriminate]|].
-      inversion HFr as [|? ? [Hv _] HFr']; subst. cbn [existsb] in HBr. apply orb_false_iff in HBr. destruct HBr as [_ HBr'].
-      assert (IHr' : VC (collect_with comp true dd r')) by (apply IHl; [unfold ltof; cbn; lia | assumption | assumption]).
+      inversion HFr as [|? ? [Hv _] HFr']; subst.
+      assert (IHr' : VC (collect_with comp true dd r')) by (apply IHl; [unfold ltof; cbn; lia | assumption]).
       destruct (comp v) eqn:Cv; cbn in Hv.
       * destruct (collect_with comp true dd r') as [es ks|bad]; [|exact IHr']. destruct IHr' as [I1 I2].
         split; [assumption | constructor; [exact Hv | assumption]].
@@ -146,8 +145,8 @@ Proof.
   assert (IHr : WC (collect_with comp wk dd r)) by (apply IHl; [unfold ltof; cbn; lia | assumption]).
   cbn [Compile.collect_with]. fold (collect_with comp wk dd).
   destruct (is_unpack s_unpack_mapping x) eqn:U.
-  - destruct x as [| | | |lx| | | |]; try discriminate. destruct lx as [|h [|v rest]]; try (intros e; discriminate).
-    specialize (Hin h v rest eq_refl). destruct (comp v) eqn:Cv; try (intros e0; discriminate).
+  - destruct x as [| | | |lx| | | |]; try discriminate. destruct lx as [|h [|v [|w rest]]]; try (intros e; discriminate).
+    specialize (Hin h v [] eq_refl). destruct (comp v) eqn:Cv; try (intros e0; discriminate).
     pose proof (Hin e eq_refl) as He. destruct dd.
     { destruct (collect_with comp wk true r) as [es ks|bad]; [|exact IHr]. destruct IHr as [I1 I2].
       split; [constructor; [exact I | constructor; [exact He | assumption]] | assumption]. }
@@ -177,7 +176,7 @@ Proof.
   - cbn in E. inversion E. reflexivity.
   - cbn [Compile.collect_with] in E. fold (collect_with comp false true) in E. unfold dict_shape. cbn [flat_map]. fold (dict_shape r).
     unfold is_um. destruct (is_unpack s_unpack_mapping x) eqn:U.
-    + destruct x as [| | | |lx| | | |]; try discriminate. destruct lx as [|h [|v rest]]; try discriminate.
+    + destruct x as [| | | |lx| | | |]; try discriminate. destruct lx as [|h [|v [|w rest]]]; try discriminate.
       destruct (comp v); try discriminate. destruct (collect_with comp false true r) as [es' ks'|]; [|discriminate].
       inversion E; subst. cbn. rewrite (IH _ _ eq_refl). reflexivity.
     + assert (G : match comp x with
@@ -194,7 +193,7 @@ Proof.
   - cbn in E. inversion E. reflexivity.
   - cbn [Compile.collect_with] in E. fold (collect_with comp false false) in E.
     destruct (is_unpack s_unpack_mapping x) eqn:U.
-    + destruct x as [| | | |lx| | | |]; try discriminate. destruct lx as [|h [|v rest]]; try discriminate.
+    + destruct x as [| | | |lx| | | |]; try discriminate. destruct lx as [|h [|v [|w rest]]]; try discriminate.
       destruct (comp v); discriminate.
     + assert (G : match comp x with
                   | COk e => match collect_with comp false false r with Coll es0 ks0 => Coll (Some e :: es0) ks0 | CollErr r0 => CollErr r0 end
@@ -289,7 +288,7 @@ Lemma collect1_W comp x : elem_ok W comp x ->
   match collect1 comp x with inl bad => forall e, bad <> COk e | inr o => okopt o end.
 Proof.
   intros [Hx Hin]. unfold collect1. destruct (is_unpack s_unpack_mapping x).
-  - destruct x as [| | | |lx| | | |]; try (intros e; discriminate). destruct lx as [|h [|v rest]]; try (intros e; discriminate).
+  - destruct x as [| | | |lx| | | |]; try (intros e; discriminate). destruct lx as [|h [|v [|w rest]]]; try (intros e; discriminate).
     destruct (comp v); intros e0; discriminate.
   - destruct (comp x) eqn:C; try (intros e0; discriminate). exact (Hx _ eq_refl).
 Qed.
@@ -297,7 +296,7 @@ Qed.
 Lemma collect1_some comp x o : collect1 comp x = inr o -> is_some o = true.
 Proof.
   unfold collect1. destruct (is_unpack s_unpack_mapping x).
-  - destruct x as [| | | |lx| | | |]; try discriminate. destruct lx as [|h [|v rest]]; try discriminate. destruct (comp v); discriminate.
+  - destruct x as [| | | |lx| | | |]; try discriminate. destruct lx as [|h [|v [|w rest]]]; try discriminate. destruct (comp v); discriminate.
   - destruct (comp x); try discriminate. intros E. inversion E. reflexivity.
 Qed.
 
@@ -421,7 +420,7 @@ Proof.
         destruct a; try exact I. specialize (IHl r (ltac:(unfold ltof; cbn; lia))).
         destruct (chain_with comp (c_op mangle) r) as [? ?|b|]; [|destruct b; try exact I; contradiction | exact I].
         destruct (c_op mangle s); [|exact I]. unfold collect1. destruct (is_unpack s_unpack_mapping y).
-        - destruct y as [| | | |ly| | | |]; try exact I. destruct ly as [|? [|v0 ?]]; try exact I. destruct (comp v0); exact I.
+        - destruct y as [| | | |ly| | | |]; try exact I. destruct ly as [|? [|v0 [|? ?]]]; try exact I. destruct (comp v0); exact I.
         - destruct (comp y); exact I. }
       specialize (Q rest). rewrite CE in Q. exact Q.
     + intros ee; discriminate.
@@ -445,14 +444,14 @@ Proof.
   cbn. unfold is_const_name. rewrite E1, E2, E3. reflexivity.
 Qed.
 
-Lemma good_kids t : good t = true -> forallb good (kids t) = true /\ existsb bare_um (kids t) = false.
+Lemma good_kids t : good t = true -> forallb good (kids t) = true.
 Proof.
-  destruct t; cbn [good kids]; intros H; try (split; reflexivity).
-  - apply andb_true_iff in H. destruct H as [H _]. apply andb_true_iff in H. destruct H as [H1 H2]. apply negb_true_iff in H2. tauto.
-  - apply andb_true_iff in H. destruct H as [H1 H2]. apply negb_true_iff in H2. tauto.
-  - apply andb_true_iff in H. destruct H as [H1 H2]. apply negb_true_iff in H2. tauto.
-  - apply andb_true_iff in H. destruct H as [H1 H2]. apply negb_true_iff in H2. tauto.
-  - apply andb_true_iff in H. destruct H as [H _]. apply andb_true_iff in H. destruct H as [H1 H2]. apply negb_true_iff in H2. tauto.
+  destruct t; cbn [good kids]; intros H; try reflexivity.
+  - apply andb_true_iff in H. exact (proj1 H).
+  - exact H.
+  - exact H.
+  - exact H.
+  - apply andb_true_iff in H. exact (proj1 H).
 Qed.
 
 Definition Q (t : hy) : Prop := good t = true -> V (compile t).
@@ -463,14 +462,14 @@ Proof.
   intros HP HG. rewrite Forall_forall in *. rewrite forallb_forall in HG. intros x Hx.
   destruct (HP x Hx) as [A B]. split; [exact (A (HG x Hx))|].
   intros h v r E. subst x. cbn [kids] in B. rewrite Forall_forall in B.
-  destruct (good_kids _ (HG _ Hx)) as [G _]. cbn [kids] in G. rewrite forallb_forall in G.
+  pose proof (good_kids _ (HG _ Hx)) as G. cbn [kids] in G. rewrite forallb_forall in G.
   apply (B v); [right; left; reflexivity|]. apply G. right; left; reflexivity.
 Qed.
 
-Lemma call_V f args : validate f = true -> Forall (elem_ok V compile) args -> existsb bare_um args = false ->
+Lemma call_V f args : validate f = true -> Forall (elem_ok V compile) args ->
   V (match collect_with compile true false args with Coll es ks => COk (ECall f (somes es) ks) | CollErr bad => bad end).
 Proof.
-  intros Hf HF HB. pose proof (collect_V compile true false args HF HB) as C.
+  intros Hf HF. pose proof (collect_V compile true false args HF) as C.
   destruct (collect_with compile true false args) as [es ks|bad].
   - destruct C as [C1 C2]. cbn. rewrite Hf, (somes_ok _ C1). cbn.
     induction C2 as [|k ks Hk _ IH]; [reflexivity|]. cbn. rewrite Hk. exact IH.
@@ -479,10 +478,10 @@ Qed.
 
 Lemma seq_V (mk : list expr -> expr) l :
   (forall es, forallb validate es = true -> validate (mk es) = true) ->
-  Forall (elem_ok V compile) l -> existsb bare_um l = false ->
+  Forall (elem_ok V compile) l ->
   V (match collect_with compile false false l with Coll es _ => COk (mk (somes es)) | CollErr bad => bad end).
 Proof.
-  intros Hmk HF HB. pose proof (collect_V compile false false l HF HB) as C.
+  intros Hmk HF. pose proof (collect_V compile false false l HF) as C.
   destruct (collect_with compile false false l) as [es ks|bad]; [|exact (proj1 C)].
   destruct C as [C1 _]. cbn. apply Hmk. exact (somes_ok _ C1).
 Qed.
@@ -496,9 +495,9 @@ Proof.
   - reflexivity.
   - reflexivity.
   - (* expression *)
-    destruct (good_kids _ G) as [GK GB]. cbn [kids] in GK, GB. pose proof (elems_ok l H GK) as EO.
+    pose proof (good_kids _ G) as GK. cbn [kids] in GK. pose proof (elems_ok l H GK) as EO.
     destruct l as [|root args]; [exact I|].
-    inversion EO as [|? ? [Vroot _] EOa]; subst. cbn [existsb] in GB. apply orb_false_iff in GB. destruct GB as [_ GBa].
+    inversion EO as [|? ? [Vroot _] EOa]; subst.
     cbn [Compile.compile]. fold compile.
     assert (Generic : V (match compile root with
                          | COk f => match collect_with compile true false args with
@@ -510,23 +509,23 @@ Proof.
       destruct (head_in mangle (all_pattern_heads ++ hy_macro_names) s).
       * destruct (modelled_head s); [|exact I]. destruct (grammar_of mangle s grammars) as [[ps shadow]|]; [|exact I].
         destruct (shadow && existsb (is_unpack s_unpack_iterable) args).
-        -- apply call_V; [reflexivity | assumption | assumption].
+        -- apply call_V; [reflexivity | assumption].
         -- destruct (grammar_accepts ps args); [|exact I]. apply W_in_macro. apply handler_W.
            ++ apply Forall_elem_W_weaken. exact EOa.
            ++ intros IC. cbn [good] in G. apply andb_true_iff in G. destruct G as [_ G].
               rewrite IC in G. apply Nat.leb_le in G. exact G.
-      * apply call_V; [apply compile_symbol_valid | assumption | assumption].
+      * apply call_V; [apply compile_symbol_valid | assumption].
     + (* expression head *)
       destruct lr as [|h ?]; [exact Generic|]. destruct h; try exact Generic.
       destruct (forallb (N.eqb 46) s || text_eqb s s_annotate); [exact I | exact Generic].
-  - destruct (good_kids _ G) as [GK GB]. cbn [kids] in GK, GB. cbn [Compile.compile]. fold compile.
-    apply (seq_V EList); [intros es E; exact E | exact (elems_ok l H GK) | exact GB].
-  - destruct (good_kids _ G) as [GK GB]. cbn [kids] in GK, GB. cbn [Compile.compile]. fold compile.
-    apply (seq_V ETuple); [intros es E; exact E | exact (elems_ok l H GK) | exact GB].
-  - destruct (good_kids _ G) as [GK GB]. cbn [kids] in GK, GB. cbn [Compile.compile]. fold compile.
-    apply (seq_V ESet); [intros es E; exact E | exact (elems_ok l H GK) | exact GB].
-  - destruct (good_kids _ G) as [GK GB]. cbn [kids] in GK, GB. cbn [Compile.compile]. fold compile.
-    pose proof (collect_V compile false true l (elems_ok l H GK) GB) as C.
+  - pose proof (good_kids _ G) as GK. cbn [kids] in GK. cbn [Compile.compile]. fold compile.
+    apply (seq_V EList); [intros es E; exact E | exact (elems_ok l H GK)].
+  - pose proof (good_kids _ G) as GK. cbn [kids] in GK. cbn [Compile.compile]. fold compile.
+    apply (seq_V ETuple); [intros es E; exact E | exact (elems_ok l H GK)].
+  - pose proof (good_kids _ G) as GK. cbn [kids] in GK. cbn [Compile.compile]. fold compile.
+    apply (seq_V ESet); [intros es E; exact E | exact (elems_ok l H GK)].
+  - pose proof (good_kids _ G) as GK. cbn [kids] in GK. cbn [Compile.compile]. fold compile.
+    pose proof (collect_V compile false true l (elems_ok l H GK)) as C.
     destruct (collect_with compile false true l) as [es ks|bad] eqn:CE; [|exact (proj1 C)].
     destruct C as [C1 _].
     assert (D : dict_ok (map is_some es) = true).
@@ -563,14 +562,9 @@ Example refuted_dict_unpack_misaligned :
   exists e, compile toy_mangle (HDict [x_; HExpr [HSym s_unpack_mapping; x_]; x_]) = COk e /\ validate e = false.
 Proof. eexists. split; vm_compute; reflexivity. Qed.
 
-(* [(unpack-mapping)]: indexing the argument-less form is an internal error outside a macro ... *)
-Example refuted_bare_unpack_mapping :
-  compile toy_mangle (HList [HExpr [HSym s_unpack_mapping]]) = CInternal.
-Proof. vm_compute. reflexivity. Qed.
-
-(* ... and a user-facing one inside a macro (MacroExceptions wraps it) *)
-Example bare_unpack_mapping_inside_macro :
-  compile toy_mangle (HExpr [sym [43]; HInt 1; HList [HExpr [HSym s_unpack_mapping]]]) = CUser.
+(* [(unpack-mapping)]: a syntax error (fix b5377ba; indexing the argument-less form used to be an internal error) *)
+Example bare_unpack_mapping_is_user_error :
+  compile toy_mangle (HList [HExpr [HSym s_unpack_mapping]]) = CUser.
 Proof. vm_compute. reflexivity. Qed.
 
 (* a non-trivial tree meeting the hypothesis of compile_outcome *)
